@@ -3,6 +3,7 @@ package c01
 import (
 	"fmt"
 	"math"
+	"strings"
 
 	"go.sia.tech/core/types"
 	"verifmc/chain"
@@ -25,7 +26,9 @@ func wrapAttacks(c *vf.Ctx, x *chain.Explorer, w *chain.World, path []string) {
 		c.Distinct(w.Spec.Name, "wrap", name)
 		switch {
 		case pv != nil:
-			x.Violate("wraparound|panic|"+name, fmt.Sprintf("ValidateBlock panicked on outputs whose fixed-width sum wraps around (%s) at height %d: %v", name, h, pv), path)
+			x.Violate("wraparound|panic|"+name, fmt.Sprintf("ValidateBlock panicked on a value-creating block (%s) at height %d: %v", name, h, pv), path)
+		case err == nil && strings.Contains(name, " listed "):
+			x.Violate("multiplied-parent|accepted|"+name, fmt.Sprintf("block whose transaction lists one parent several times and pays out the multiplied sum (%s) was ACCEPTED at height %d: value created from nothing", name, h), append(append([]string(nil), path...), "attack:wrap:"+name))
 		case err == nil:
 			x.Violate("wraparound|accepted|"+name, fmt.Sprintf("block whose outputs exceed its inputs by exactly the width of the arithmetic (%s) was ACCEPTED at height %d: value created from nothing", name, h), append(append([]string(nil), path...), "attack:wrap:"+name))
 		default:
@@ -102,6 +105,74 @@ func wrapAttacks(c *vf.Ctx, x *chain.Explorer, w *chain.World, path []string) {
 				u2.V1.Signatures = nil
 				w.SignV1Whole(u2.V1)
 				try(fmt.Sprintf("v1 siacoin outputs + miner fees, split %d", i), u2)
+			}
+		}
+	}
+	// the same parent listed n times inside ONE transaction, the outputs equal to the n-fold input sum (every address
+	// class, including unlock conditions that need no signature: nothing but the spend bookkeeping can reject these)
+	dedupe := func(t *types.Transaction) {
+		seen := map[[2]types.Hash256]bool{}
+		var sigs []types.TransactionSignature
+		for _, sg := range t.Signatures {
+			key := [2]types.Hash256{sg.ParentID, {byte(sg.PublicKeyIndex)}}
+			if !seen[key] {
+				seen[key] = true
+				sigs = append(sigs, sg)
+			}
+		}
+		t.Signatures = sigs
+		w.FillV1Signatures(t)
+	}
+	classes, maxN := []int{chain.AddrV1, chain.AddrNoSig, chain.AddrV2, chain.AddrACS}, 2
+	if !c.Quick() {
+		classes, maxN = []int{chain.AddrV1, chain.AddrV1b, chain.AddrNoSig, chain.AddrFnd, chain.AddrV2, chain.AddrACS}, 3
+	}
+	for _, cl := range classes {
+		cl := cl
+		for n := 2; n <= maxN; n++ {
+			if p, ok := w.NewBlockCtx().PickSC(func(c int) bool { return c == cl }, types.Siacoins(5)); ok {
+				if v1ok && (cl == chain.AddrV1 || cl == chain.AddrV1b || cl == chain.AddrNoSig || cl == chain.AddrFnd) {
+					u := w.UseV1SC(p, 9)
+					for len(u.V1.SiacoinInputs) < n {
+						u.V1.SiacoinInputs = append(u.V1.SiacoinInputs, u.V1.SiacoinInputs[0])
+					}
+					u.V1.SiacoinOutputs[0].Value = p.SiacoinOutput.Value.Mul64(uint64(n))
+					u.V1.Signatures = nil
+					w.SignV1Whole(u.V1)
+					dedupe(u.V1)
+					try(fmt.Sprintf("v1 siacoin parent of class %d listed %d times in one transaction", cl, n), u)
+				}
+				if v2ok {
+					u := w.UseV2SC(p, 9)
+					for len(u.V2.SiacoinInputs) < n {
+						u.V2.SiacoinInputs = append(u.V2.SiacoinInputs, types.V2SiacoinInput{Parent: p.Copy()})
+					}
+					u.V2.SiacoinOutputs[0].Value = p.SiacoinOutput.Value.Mul64(uint64(n))
+					w.SignV2(u.V2)
+					try(fmt.Sprintf("v2 siacoin parent of class %d listed %d times in one transaction", cl, n), u)
+				}
+			}
+			if p, ok := w.NewBlockCtx().PickSF(func(c int) bool { return c == cl }); ok && p.SiafundOutput.Value < 1<<60 {
+				if v1ok && (cl == chain.AddrV1 || cl == chain.AddrV1b || cl == chain.AddrNoSig) {
+					u := w.UseV1SF(p, 9)
+					for len(u.V1.SiafundInputs) < n {
+						u.V1.SiafundInputs = append(u.V1.SiafundInputs, u.V1.SiafundInputs[0])
+					}
+					u.V1.SiafundOutputs[0].Value = p.SiafundOutput.Value * uint64(n)
+					u.V1.Signatures = nil
+					w.SignV1Whole(u.V1)
+					dedupe(u.V1)
+					try(fmt.Sprintf("v1 siafund parent of class %d listed %d times in one transaction", cl, n), u)
+				}
+				if v2ok {
+					u := w.UseV2SF(p, 9)
+					for len(u.V2.SiafundInputs) < n {
+						u.V2.SiafundInputs = append(u.V2.SiafundInputs, types.V2SiafundInput{Parent: p.Copy(), ClaimAddress: k.Addr(chain.AddrV2)})
+					}
+					u.V2.SiafundOutputs[0].Value = p.SiafundOutput.Value * uint64(n)
+					w.SignV2(u.V2)
+					try(fmt.Sprintf("v2 siafund parent of class %d listed %d times in one transaction", cl, n), u)
+				}
 			}
 		}
 	}
